@@ -165,7 +165,8 @@ def _name_mapping_convert_map(name_map: Omittable[NameMap]) -> VarTuple[Provider
 def _name_mapping_convert_preds(value: Omittable[Union[Iterable[Pred], Pred]]) -> Omittable[LocStackChecker]:
     if isinstance(value, Omitted):
         return value
-    if isinstance(value, Iterable) and not isinstance(value, str):
+    # enum class is iterable, but it is a single predicate
+    if isinstance(value, Iterable) and not isinstance(value, (str, type)):
         return OrLocStackChecker([create_loc_stack_checker(el) for el in value])
     return create_loc_stack_checker(value)
 
